@@ -432,15 +432,16 @@ int selects3_construct(selects3 *select, const int n, const uint *buf) {
   for (int k = 0; k < (2 * m + 8 - 1) / 8 + 1; k++)
     buf2[k] = 0;
   select->hi_len = (2 * m + 8 - 1) / 8 + 1;
-  low = new uint[(d * m + PBS - 1) / PBS + 1];
-  for (uint k = 0; k < (d * m + PBS - 1) / PBS + 1; k++)
+  // (__getbits always reads two words: one more is needed when d is 0)
+  low = new uint[(d * m + PBS - 1) / PBS + 2];
+  for (uint k = 0; k < (d * m + PBS - 1) / PBS + 2; k++)
     low[k] = 0;
-  select->low_len = (d * m + PBS - 1) / PBS + 1;
+  select->low_len = (d * m + PBS - 1) / PBS + 2;
 
   select->hi = buf2;
   select->low = low;
   select->size = sizeof(unsigned char) * ((2 * m + 8 - 1) / 8 + 1) +
-                 sizeof(uint) * ((d * m + PBS - 1) / PBS + 1);
+                 sizeof(uint) * ((d * m + PBS - 1) / PBS + 2);
 
   for (i = 0; i < m * 2; i++)
     __setbit2(buf2, i, 0);
